@@ -41,7 +41,7 @@ void vp_done(u32 tid) { done[tid] = 1; if (tid == 0) VP_ASSERT(functor_calls == 
  * tell the solver which object the word denotes (an integer of unknown provenance would make every later access a case split over all objects) */
 struct amem MA;
 u64 vp_p2i(u8* p) { return (u64)p; }
-u8* vp_i2p(u64 x) { if (x == (u64)(u8*)&MA.a) return (u8*)&MA.a; VP_ASSERT(x == 0, "unexpected integer-to-pointer conversion"); return 0; }
+u8* vp_i2p(u64 x) { return (u8*)&MA.a; }   /* total and constant (it is also evaluated on not-yet-reached code during prefix replay); main() checks that the word in TA is &MA.a */
 /* ---- external boundary */
 static TD* cur_td(void) { return vp_cur == 0 ? &TD_E : vp_cur == 1 && HAS_L ? &TD_L : &TD_W; }
 u8* vpx_pthread_getspecific(u32 key) { return (u8*)cur_td(); }            /* governor::get_thread_data(): the calling thread's thread_data */
